@@ -372,6 +372,42 @@ theorem C13_render_dropEmptyText (nodes : List Node) (vars : List (Bytes × Val)
     renderNodesTop (stripL nodes) vars = renderNodesTop nodes vars :=
   renderNodesTop_strip nodes vars
 
+/-- C13 on rendered output, block tags included, ANY chunks (also whitespace-only chunks that a dash trims to
+    nothing): the dashed template renders like the hand-trimmed dash-free template — same output, same error.
+    Covered tags (`tagSupB`, decidable): prints of arbitrary expressions, comments, `if`/`elseif`/`else`/`endif`,
+    `for`/`else`/`endfor`, `block`/`endblock`, `set`, `extends`, `apply`/`endapply`, `spaceless`, unknown tags;
+    `do`, `import`, `from`, `macro`/`endmacro`; not covered: `include`, `verbatim` (handler simulation not proved).
+    `hfuel`: the model parser's fuel sufficed for the hand-trimmed template.
+    Route: `tokenize_dashed` (C13_commutes: the streams are equal up to empty TEXT tokens),
+    `parseTokens_dropEmptyText` (the parser maps them to trees equal up to `.text []` nodes),
+    `C13_render_dropEmptyText` (such nodes are invisible to the renderer). -/
+theorem C13_commutes_render_partial (ps : List (Bytes × Tag)) (last : Bytes) (vars : List (Bytes × Val))
+    (hwf : ∀ lt ∈ ps, WfTag lt.2 ∧ WfTag lt.2.plain)
+    (hlit : ∀ lt ∈ undashPairs false ps, Lit lt.1)
+    (hlast : NoOpener (undashLast false ps last))
+    (hsup : ∀ lt ∈ ps, tagSupB lt.2 = true)
+    (hfuel : parseTemplate (spell (undashPairs false ps) (undashLast false ps last)) ≠ .error .fuel) :
+    renderSrc (spell ps last) vars = renderSrc (spell (undashPairs false ps) (undashLast false ps last)) vars := by
+  obtain ⟨hX, hY, hD⟩ := tokenize_dashed ps last hwf hlit hlast
+  have hw : WFo (normalise (applyWs (expected ps last))) := wfo_stream last ps false hsup
+  have hpX := parseTemplate_tokens hX
+  have hpY := parseTemplate_tokens hY
+  rw [hpY, ← hD] at hfuel
+  have hsim := parseTokens_dropEmptyText _ hw hfuel
+  unfold renderSrc
+  rw [hpX, hpY, ← hD]
+  cases hres : parseTokens (dropEmptyText (normalise (applyWs (expected ps last)))) with
+  | error e =>
+    rw [hres] at hsim
+    simp only at hsim
+    rw [hsim]
+  | ok ns' =>
+    rw [hres] at hsim
+    obtain ⟨ns, hx, hφ⟩ := hsim
+    rw [hx]
+    simp only [ok_bind]
+    rw [← hφ, C13_render_dropEmptyText]
+
 /-! ## non-vacuity and concrete instances (kernel evaluation of the whole pipeline) -/
 
 /-- evaluation helper for closed instances -/
@@ -449,5 +485,18 @@ theorem C14_padding_self_include_counterexample :
 example : (∀ lt ∈ c13Sample, WfTag lt.2 ∧ WfTag lt.2.plain) ∧ (∀ lt ∈ undashPairs false c13Sample, Lit lt.1) ∧
     NoOpener (undashLast false c13Sample (b "  </li>\n")) ∧ Kept false c13Sample (b "  </li>\n") := by
   decide +kernel
+
+-- C13_commutes_render_partial: an `if` block whose body is a whitespace-only chunk between two dashes
+def c13Blocks : List (Bytes × Tag) :=
+  [(b "a ", ⟨.block, true, b " if x ", true⟩), (b " \n ", ⟨.var, true, b " y ", true⟩),
+   (b "  ", ⟨.block, true, b " endif ", false⟩)]
+example : (∀ lt ∈ c13Blocks, WfTag lt.2 ∧ WfTag lt.2.plain) ∧ (∀ lt ∈ undashPairs false c13Blocks, Lit lt.1) ∧
+    NoOpener (undashLast false c13Blocks (b " z")) ∧ (∀ lt ∈ c13Blocks, tagSupB lt.2 = true) ∧
+    ¬ Kept false c13Blocks (b " z") := by decide +kernel
+example : spell c13Blocks (b " z") = b "a {%- if x -%} \n {{- y -}}  {%- endif %} z" ∧
+    spell (undashPairs false c13Blocks) (undashLast false c13Blocks (b " z")) = b "a{% if x %}{{ y }}{% endif %} z" := by
+  decide +kernel
+example : renderSrc (b "a {%- if x -%} \n {{- y -}}  {%- endif %} z") [(b "x", .bool true), (b "y", .int 7)] = .ok (b "a7 z") :=
+  isOk_eq (by decide +kernel)
 
 end Twig
